@@ -8,3 +8,9 @@ prop("C17", ["T-ASM-PORT"])
 import rules_tables  # noqa
 prop("C01", ["T-PREC", "T-BRANCH", "T-CMPXFORM"])
 prop("C03", ["T-LB-EQUIV", "T-LB-RANGE", "T-ASMLINE-SIBLINGS", "T-HANDBUILT", "T-CMPXFORM"])
+import rules_literals  # noqa
+prop("C09", ["T-ESC", "T-STR-NUL"])
+import rules_cpp  # noqa
+prop("C07", ["T-CPP-FSM", "T-CPP-GUARD", "T-CPP-EVAL"])
+prop("C08", ["T-CPP-REGEX", "T-CPP-PARALLEL", "T-CPP-D"])
+prop("C06", ["T-LINEMAP", "T-ERR-SOURCE", "T-LOC-SIBLINGS"])
